@@ -138,7 +138,7 @@ def valid_case(case):
                     and case["how"] in HOWS)
         if kind == "v2":
             return c07.valid_ast(case["ast"]) and case["form"] in ("text", "list") and case["how"] in HOWS
-        if kind == "mixed":
+        if kind in ("mixed", "cli"):
             return c07.valid_ast(case["ast"]) and _is_mixed(c07.render(case["ast"], case["v"], case["form"]))
     except (KeyError, TypeError, IndexError):
         return False
@@ -167,10 +167,12 @@ def _protocol(name):
     return TagExpressionProtocol.V1 if name == "v1" else TagExpressionProtocol.AUTO_DETECT
 
 
-def build(arg, protocol_name, how):
+def build(arg, protocol_name, how, as_tuple=False):
     """Build the expression object in the requested way; always leaves the process-wide protocol at its default."""
     from behave.tag_expression import TagExpressionProtocol, make_tag_expression
     protocol = _protocol(protocol_name)
+    if as_tuple and isinstance(arg, list) and how != "config":
+        arg = tuple(arg)        # any sequence of strings is a list of terms
     try:
         if how == "explicit":
             return make_tag_expression(arg, protocol)
@@ -199,6 +201,8 @@ def check(case):
         return check_v2(case)
     if kind == "mixed":
         return check_mixed(case)
+    if kind == "cli":
+        return check_cli(case)
     raise ValueError(kind)
 
 
@@ -244,7 +248,7 @@ def check_v1(case):
     if want != U.expected(v1_ast(groups)):
         raise AssertionError("the two own evaluators disagree")
     try:
-        expr = build(arg, protocol, how)
+        expr = build(arg, protocol, how, as_tuple=len(groups) % 2 == 0)
     except TagExpressionError as e:
         res.fail(where if bare_limit else where + ".rejected",
                  "old-style %r (protocol %s, %s) is rejected: %s" % (arg, protocol, how, _one_line(e)), text=arg)
@@ -274,7 +278,8 @@ def check_v2(case):
     want = U.expected(ast)
     try:
         # -- a real command line: every term (or the whole text) is one --tags option
-        expr = build(arg if (how != "config" or isinstance(arg, list)) else [arg], "auto", how)
+        expr = build(arg if (how != "config" or isinstance(arg, list)) else [arg], "auto", how,
+                     as_tuple=bool(variant & 4))
     except TagExpressionError as e:
         res.fail("C08.auto-detect.v2-text.rejected", "new-style %r is rejected under auto_detect: %s"
                  % (arg, _one_line(e)), text=arg)
@@ -301,11 +306,96 @@ def check_mixed(case):
     try:
         expr = build(arg, "auto", "explicit")
     except TagExpressionError:
-        return res
+        if not isinstance(arg, list):
+            return res
+        # the same terms as a tuple: any sequence of strings is accepted as a list of terms
+        res.label("mixed:tuple")
+        try:
+            expr = build(arg, "auto", "explicit", as_tuple=True)
+        except TagExpressionError:
+            return res
     res.fail("C08.mixed.not-rejected",
              "%r mixes the old negation prefix with new-style operators but is accepted under auto_detect as %r"
              % (arg, expr), text=arg, built=repr(expr))
     return res
+
+
+CLI_PROGRAM = {"features": [{"tags": [], "items": [
+    {"k": "s", "tags": ["a"], "steps": [{"kw": "Given", "o": "pass"}]},
+    {"k": "s", "tags": ["b"], "steps": [{"kw": "Given", "o": "pass"}]}]}]}
+
+
+def check_cli(case):
+    """The command line: a mixed expression ends the run as a failure (non-zero exit status, the error named,
+    nothing executed); the control run with a plain new-style expression on the same project succeeds."""
+    import copy
+    from .. import disk
+    from ..program import normalize
+    res = CaseResult()
+    arg = c07.render(case["ast"], case["v"], case["form"])
+    terms = arg if isinstance(arg, list) else [arg]
+    prog = copy.deepcopy(CLI_PROGRAM)
+    normalize(prog)
+    res.nontrivial = True
+    res.label("cli:mixed", "cli:terms=%d" % min(len(terms), 3), "cli:via=%s" % case.get("via", "cmdline"))
+    if case.get("via") == "ini":
+        import os
+        proj_args, env_extra = [], None
+        prog["_ini"] = u"[behave]\ntags = %s\n" % u"\n    ".join(terms)
+    else:
+        proj_args = ["--tags=%s" % t for t in terms]
+    run = _run_cli(prog, proj_args)
+    text = run.stdout + run.stderr
+    ran = [e for e in (run.log or {}).get("calls", [])]
+    if run.returncode == 0:
+        res.fail("C08.cli.mixed-exit-status", "behave %r: the mixed expression is reported (%r) but the process exits "
+                 "with status 0" % (proj_args or terms, text.strip()[-200:]))
+    elif "TagExpressionError" not in text:
+        res.fail("C08.cli.mixed-not-named", "behave %r exits with %d without naming the tag-expression problem: %r"
+                 % (proj_args or terms, run.returncode, text.strip()[-300:]))
+    if ran:
+        res.fail("C08.cli.mixed-executed", "behave %r ran steps %r although the expression is rejected"
+                 % (proj_args or terms, ran))
+    control = _run_cli(copy.deepcopy(prog) if case.get("via") != "ini" else dict(copy.deepcopy(prog), _ini=u"[behave]\ntags = @a or @b\n"),
+                       ["--tags=@a or @b"] if case.get("via") != "ini" else [])
+    if control.returncode != 0:
+        res.fail("C08.cli.control", "behave --tags='@a or @b' on the same project exits with %d: %r"
+                 % (control.returncode, (control.stdout + control.stderr)[-300:]))
+    return res
+
+
+def _run_cli(prog, args):
+    from .. import disk
+    ini = prog.pop("_ini", None)
+    proj = disk.Project(prog, extra_files={"../behave.ini": ini} if ini else None)
+    import subprocess
+    import sys
+    import os
+    import json
+    try:
+        p = subprocess.run([sys.executable, "-m", "behave", "-f", "plain", "--no-color"] + list(args), cwd=proj.root,
+                           env=disk.child_env(proj.root), stdout=subprocess.PIPE, stderr=subprocess.PIPE, timeout=120)
+        out = disk.CliResult()
+        out.returncode = p.returncode
+        out.stdout = p.stdout.decode("utf-8", "replace")
+        out.stderr = p.stderr.decode("utf-8", "replace")
+        out.log = None
+        log_path = os.path.join(proj.root, "vf_log.json")
+        if os.path.exists(log_path):
+            with open(log_path) as f:
+                out.log = json.load(f)
+        return out
+    finally:
+        proj.close()
+
+
+def cli_enum():
+    seen = 0
+    for c in mixed_enum(3):
+        if c["v"] not in (0, 16):
+            continue
+        seen += 1
+        yield dict(c, kind="cli", via="ini" if seen % 3 == 0 else "cmdline")
 
 
 # ---------------------------------------------------------------------------
@@ -415,6 +505,7 @@ def explore(rec):
     rec.hyp("v2-under-auto-detect/random", v2_case_st(), 10000 if quick else 300000)
     rec.enum("mixed/trees", mixed_enum(5 if quick else 6))
     rec.hyp("mixed/random", mixed_case_st(), 4000 if quick else 100000)
+    rec.enum("command line/mixed expressions", itertools.islice(cli_enum(), 32 if quick else 400))
 
 
 def required_labels(tier):
@@ -422,7 +513,8 @@ def required_labels(tier):
             "how:config", "v1:groups=3", "v1:alternatives=3", "v1:minus", "v1:tilde", "v1:at", "v1:negated-at",
             "v1:limit", "v1:bare-tag-with-limit", "v1:keyword-substring-tag", "excluded:both-dialects",
             "v2-auto", "v2-auto:single-operand", "v2-auto:keyword-substring-tag", "wildcard", "form:list",
-            "mixed", "mixed:and", "mixed:or", "mixed:not", "mixed:list"]
+            "mixed", "mixed:and", "mixed:or", "mixed:not", "mixed:list", "mixed:tuple", "cli:mixed", "cli:via=ini",
+            "cli:via=cmdline"]
 
 
 def _f11_bare_tag_with_limit(case, detail, info):
@@ -439,3 +531,5 @@ KNOWN_PREDICATES = {"single_bare_tag_with_limit_under_auto_detect": _f11_bare_ta
 
 
 RULE = RULE + " " + ('Old-style arguments are also written with blanks around the comma inside one argument (--tags="@a, @b"); new-style list terms include the \'(a and b) or (c)\' rendering.')
+RULE = RULE + " " + ('Lists of terms are also passed as tuples. A sample of mixed expressions goes through `python -m behave` '
+                     '(command line and behave.ini): non-zero exit status, the error named, nothing executed, control run succeeds.')
